@@ -209,10 +209,32 @@ Del(k) == Apply(BSet(root, k, NoVal, FALSE), [contents EXCEPT ![k] = NoVal],
 DelSub(p) == Apply(BSet(root, p, NoVal, TRUE),
                    [k \in Keys |-> IF StartsWith(k, p) THEN NoVal ELSE contents[k]],
                    [a |-> "delsub", k |-> p, v |-> JV(NoVal), ok |-> TRUE])
+\* C18: ill-formed calls and the exception each must be refused with; nothing changes
+BinRejects ==
+  { [entry |-> "get", arg |-> "key", kind |-> "notbytes", exc |-> "ValidationError", needs |-> "any"],
+    [entry |-> "exists", arg |-> "key", kind |-> "notbytes", exc |-> "ValidationError", needs |-> "any"],
+    [entry |-> "getitem", arg |-> "key", kind |-> "notbytes", exc |-> "ValidationError", needs |-> "any"],
+    [entry |-> "contains", arg |-> "key", kind |-> "notbytes", exc |-> "ValidationError", needs |-> "any"],
+    [entry |-> "delete", arg |-> "key", kind |-> "notbytes", exc |-> "ValidationError", needs |-> "any"],
+    [entry |-> "delitem", arg |-> "key", kind |-> "notbytes", exc |-> "ValidationError", needs |-> "any"],
+    [entry |-> "delete_subtrie", arg |-> "key", kind |-> "notbytes", exc |-> "ValidationError", needs |-> "any"],
+    [entry |-> "check_if_branch_exist", arg |-> "key", kind |-> "notbytes", exc |-> "ValidationError", needs |-> "any"],
+    [entry |-> "get_branch", arg |-> "key", kind |-> "notbytes", exc |-> "ValidationError", needs |-> "any"],
+    [entry |-> "get_witness_for_key_prefix", arg |-> "key", kind |-> "notbytes", exc |-> "ValidationError", needs |-> "any"],
+    [entry |-> "if_branch_valid", arg |-> "key", kind |-> "notbytes", exc |-> "ValidationError", needs |-> "any"],
+    [entry |-> "set", arg |-> "key", kind |-> "notbytes", exc |-> "ValidationError", needs |-> "any"],
+    [entry |-> "set", arg |-> "value", kind |-> "notbytes", exc |-> "ValidationError", needs |-> "any"],
+    [entry |-> "setitem", arg |-> "key", kind |-> "notbytes", exc |-> "ValidationError", needs |-> "any"],
+    [entry |-> "setitem", arg |-> "value", kind |-> "notbytes", exc |-> "ValidationError", needs |-> "any"],
+    [entry |-> "constructor", arg |-> "root", kind |-> "notbytes", exc |-> "ValidationError", needs |-> "any"] }
+Rejected(e) == /\ Log([a |-> "reject", entry |-> e.entry, arg |-> e.arg, kind |-> e.kind, exc |-> e.exc, ok |-> FALSE])
+               /\ UNCHANGED <<root, db, contents, past>>
+NextR == \E e \in BinRejects : Rejected(e)
 Next == \/ \E k \in Keys : (\E v \in Vals : Set(k, v)) \/ Del(k)
         \/ \E p \in LookupKeys : Del(p) /\ p \notin Keys
         \/ \E p \in LookupKeys : DelSub(p)
 Spec == Init /\ [][Next]_vars
+SpecR == Init /\ [][Next \/ NextR]_vars
 
 \* ------------------------------------------------------------------------
 \* PROPERTIES
